@@ -2,7 +2,7 @@
    Sweep protocol of mps_common.py (Model/Sweep.v); only statements here, every proof is `exact <lemma of
    Proofs/SweepP.v or Proofs/SweepP2.v>`.  Energy / convergence / canonical-form clauses are decided by the oracle of
    harness/c13.py (exact diagonalisation) only; see T13_energy_variational_partial. *)
-From TenpyV Require Import Base.Prelude Model.Charge Model.Sweep Model.SweepCharge Model.SweepInf Proofs.SweepP Proofs.SweepP2 Proofs.SweepChargeP Proofs.SweepInfP.
+From TenpyV Require Import Base.Prelude Model.Charge Model.Sweep Model.SweepCharge Model.SweepInf Proofs.SweepP Proofs.SweepP2 Proofs.SweepChargeP Proofs.SweepInfP Proofs.SweepInfP2.
 
 (* get_sweep_schedule, finite and infinite bc, n = 1, 2, every L > n.  With m right moves (L - n finite, L infinite):
    the schedule has 2m entries; position i is optimised moving right for every i < m and moving left for every
@@ -37,11 +37,20 @@ Proof. exact no_stale_all. Qed.
    EVERY site of a window of L consecutive sites containing the optimised sites ([0, L) while moving right, [n, L+n)
    while moving left); only factors outside that window (other copies of the unit cell) may be older versions.
    Proof: for each L the abstract state is a fixed point of the sweep after three sweeps (evaluation), then induction
-   on k.  Missing for the full statement: unit cells L > 24 (no induction over L); the model is tied to the code by
-   transcription only (the instrumentation of harness/c13.py traces finite runs). *)
+   on k.  Missing for the full statement: unit cells L > 24 (no induction over L).  Tie of the model to the code:
+   correspondence stream `env-trace-inf` of harness/c13.py (Model/SweepInfCheck.v check_inf_run: instrumented infinite
+   DMRG runs, L = 2..4, stored keys / per-factor currency / ages after every local update and the environments read
+   for eff_H; the runs include L = n = 2: next theorem). *)
 Theorem T13_no_stale_env_infinite_partial : forall L n k, (n = 1 \/ n = 2)%nat -> (n < L <= 24)%nat ->
   no_stale_inf L n k = true.
 Proof. exact no_stale_inf_all. Qed.
+
+(* ... and the same for the two-site engine on a unit cell of exactly two sites (L = n = 2, the standard iDMRG set-up,
+   not covered by n < L above), every number k of sweeps: here the window is the whole unit cell [0, 2) moving right and
+   [2, 4) moving left.  Same model, same proof method (fixed point after three sweeps); the traced runs of the stream
+   `env-trace-inf` include this configuration. *)
+Theorem T13_no_stale_env_infinite_L2_two_site : forall k, no_stale_inf 2 2 k = true.
+Proof. exact no_stale_inf_2_2. Qed.
 
 (* the window cannot be widened to "all recorded factors": the LP read at the turning point i0 = L contains site 0 in
    the version before the update at i0 = L - 1 rewrote it (as site L) *)
@@ -121,6 +130,9 @@ Proof.
 Qed.
 
 (* non-vacuity: two sweeps of the infinite two-site schedule on a 4-site unit cell; the state after three sweeps *)
+Example T13_example_inf_L2 : map (fun e : entry => fst (fst e)) (schedule false 2 2) = [0; 1; 2; 1]%nat /\
+  irp (exec_i 2 2 (init_i 2) (schedule false 2 2)) = [None; Some [true; false; false; false]].
+Proof. vm_compute. split; reflexivity. Qed.
 Example T13_example_inf_run : no_stale_inf 4 2 2 = true /\
   ilp (exec_i 4 2 (init_i 4) (repeat_list (schedule false 4 2) 3)) =
     [Some [false; false; false; false; false; false; false; false; false; false]; None; None; None] /\
@@ -132,6 +144,7 @@ Print Assumptions T13_schedule_covers.
 Print Assumptions T13_no_stale_env.
 Print Assumptions T13_energy_variational_partial.
 Print Assumptions T13_no_stale_env_infinite_partial.
+Print Assumptions T13_no_stale_env_infinite_L2_two_site.
 Print Assumptions T13_infinite_lag_is_real.
 Print Assumptions T13_charge_sector.
 Print Assumptions T13_charge_no_raise.
